@@ -678,7 +678,7 @@ func (s *seekScan) scan() {
 		stack = append(stack, n)
 		switch x := n.(type) {
 		case *ast.IfStmt:
-			s.ifBranch(x, restrict(s.dirContext(stack[:len(stack)-1], x)), nextKey)
+			s.ifBranch(x, restrict(s.dirContext(stack[:len(stack)-1], x)), nextKey, stack[:len(stack)-1])
 			s.ifArms(x, nextKey)
 		case *ast.SwitchStmt:
 			if x.Tag == nil {
@@ -730,6 +730,116 @@ func (s *seekScan) scan() {
 	s.rangeTranslation(nextKey)
 	s.startConsumed(baseDirs, nextKey)
 	s.equalTakesStripArm(nextKey)
+	if fnHasDir {
+		s.visitorGuard(nextKey)
+	}
+}
+
+// visitorGuard: a traversal that carries the not yet consumed rest of the start point down the tree reports a node
+// to its visitor (a parameter of function type) under a test "the start is used up". A node reached with a rest
+// left has a path that is a proper prefix of the start, i.e. it lies *before* the start: a forward scan is right to
+// pass it by, a backward scan has to report it (finding 85: TrieStore.Seek backwards lost the value stored under a
+// key that is a prefix of the start). With "start used up" false, the guard of the visitor call is unsatisfiable
+// forwards and satisfiable backwards.
+func (s *seekScan) visitorGuard(nextKey func(string) string) {
+	f := s.sf.cfg
+	var stack []ast.Node
+	ast.Inspect(s.sf.fd.Decl.Body, func(n ast.Node) bool {
+		if n == nil {
+			stack = stack[:len(stack)-1]
+			return true
+		}
+		stack = append(stack, n)
+		if _, ok := n.(*ast.FuncLit); ok {
+			return true
+		}
+		call, ok := n.(*ast.CallExpr)
+		if !ok {
+			return true
+		}
+		id, ok := call.Fun.(*ast.Ident)
+		if !ok {
+			return true
+		}
+		v, ok := f.Info.ObjectOf(id).(*types.Var)
+		if !ok || !f.params[v] {
+			return true
+		}
+		if _, isFn := v.Type().Underlying().(*types.Signature); !isFn {
+			return true
+		}
+		// innermost if whose body holds the call
+		var guard *ast.IfStmt
+		for i := len(stack) - 2; i >= 1 && guard == nil; i-- {
+			if is, ok := stack[i-1].(*ast.IfStmt); ok && ast.Node(is.Body) == stack[i] {
+				guard = is
+			}
+			if _, ok := stack[i].(*ast.FuncLit); ok {
+				break
+			}
+		}
+		if guard == nil {
+			return true
+		}
+		// the "start is used up" atoms of the guard
+		var used []string
+		ast.Inspect(guard.Cond, func(x ast.Node) bool {
+			be, ok := x.(*ast.BinaryExpr)
+			if !ok || be.Op != token.EQL || !isZeroConst(f.Info, be.Y) {
+				return true
+			}
+			if lc, ok := ast.Unparen(be.X).(*ast.CallExpr); ok && f.calleeSym(lc) == "builtin.len" && len(lc.Args) == 1 && s.roles.mentionsStart(f, lc.Args[0]) {
+				used = append(used, types.ExprString(be))
+			}
+			return true
+		})
+		if len(used) == 0 {
+			return true
+		}
+		ev := &orientEval{s: s}
+		ev.eval(guard.Cond, &orientEnv{free: map[string]bool{}, und: map[string]bool{}})
+		var others []string
+		for _, k := range ev.freeKeys {
+			isUsed := false
+			for _, u := range used {
+				if u == k {
+					isUsed = true
+				}
+			}
+			if !isUsed {
+				others = append(others, k)
+			}
+		}
+		sat := map[bool]bool{}
+		if len(others) <= 8 {
+			for _, d := range []bool{false, true} {
+				for mask := 0; mask < 1<<len(others); mask++ {
+					fr := map[string]bool{}
+					for i, k := range others {
+						fr[k] = mask&(1<<i) != 0
+					}
+					for _, u := range used {
+						fr[u] = false
+					}
+					if ev.eval(guard.Cond, &orientEnv{dir: d, free: fr, und: map[string]bool{}}) {
+						sat[d] = true
+					}
+				}
+			}
+		}
+		key := nextKey("visitor-guard")
+		switch {
+		case len(others) > 8:
+			s.c.Unclassified(key, s.c.P.Pos(guard.Pos()), "the guard of the visitor call has too many atoms to enumerate")
+		case sat[false]:
+			s.report("visitor", key, guard.Pos(), false, "", fmt.Sprintf("`%s` lets a forward scan report a node that is reached with a part of the start point left: its key is a proper prefix of the start, i.e. before it", trunc(types.ExprString(guard.Cond), 90)))
+		case !sat[true]:
+			s.report("visitor", key, guard.Pos(), false, "", fmt.Sprintf("`%s` reports a node to the visitor only when the start point is used up, in both directions: a node reached with a part of the start left has a key that is a proper prefix of the start - it lies before the start, and a backward scan (which answers with the keys at or before the start) loses it, while every other store returns it", trunc(types.ExprString(guard.Cond), 90)))
+		default:
+			s.report("visitor", key, guard.Pos(), true, fmt.Sprintf("`%s`: a node reached with a part of the start left (its key is a proper prefix of the start) is passed by forwards and can be reported backwards", trunc(types.ExprString(guard.Cond), 90)), "")
+		}
+		return true
+	})
 }
 
 // equalTakesStripArm: the arm that re-expresses the start relative to the node found (`start` has the node's path as
@@ -989,10 +1099,26 @@ func (s *seekScan) report(kind, key string, pos token.Pos, ok bool, okMsg, badMs
 }
 
 // ifBranch: `if cond {A} else {B}` where exactly one arm leaves the function.
-func (s *seekScan) ifBranch(x *ast.IfStmt, dirs []bool, nextKey func(string) string) {
+func (s *seekScan) ifBranch(x *ast.IfStmt, dirs []bool, nextKey func(string) string, stack []ast.Node) {
 	bodyDrops := dropsBlock(x.Body)
 	elseDrops := x.Else != nil && dropsBlock(x.Else)
-	ev := &orientEval{s: s}
+	// A subtree all of whose keys extend the start (the start is a proper prefix of the subtree's path) is after the
+	// start and still part of a backward scan's answer - the stores' common convention, which the key filters are
+	// already held to (finding 85). The rows of the table distinguish that case.
+	ev := &orientEval{s: s, withExt: true}
+	// the conditions of the if statements in whose else arm this one stands were false here: a row under which one of
+	// them holds does not arrive
+	var refuted []ast.Expr
+	var inner ast.Node = x
+	for i := len(stack) - 1; i >= 0; i-- {
+		if is, ok := stack[i].(*ast.IfStmt); ok && is.Else != nil && ast.Node(is.Else) == inner {
+			refuted = append(refuted, is.Cond)
+		}
+		if _, ok := stack[i].(*ast.FuncLit); ok {
+			break
+		}
+		inner = stack[i]
+	}
 	if bodyDrops == elseDrops {
 		// still count conditions that compare with the start: their shape is not understood
 		ev.eval(x.Cond, &orientEnv{free: map[string]bool{}})
@@ -1003,6 +1129,11 @@ func (s *seekScan) ifBranch(x *ast.IfStmt, dirs []bool, nextKey func(string) str
 	}
 	ok, detail, rel := ev.decide(dirs, []int{-1, 1}, func(env *orientEnv) (bool, bool) {
 		v := ev.eval(x.Cond, env)
+		for _, rc := range refuted {
+			if ev.eval(rc, env) {
+				return v, false
+			}
+		}
 		if bodyDrops {
 			return !v, true
 		}
